@@ -184,6 +184,64 @@ def gen_types(loader, check, replay_on=True):
                 check.ob(f"{fam}#const-is-recorded", sp, p.ctx.pc, bool(p.value.fields["group"] & G.CONST))
 
 
+def gen_type_history(loader, check, replay_on=True):
+    """the type a spelling denotes does not depend on the declarations translated before it: `const T x` must not make a later plain `T y` const
+    (type objects are not shared between declarations, or are never modified once handed out)"""
+    T = loader.load(tkit.M_T).globals["RZILTransformer"]
+    trees = type_trees(loader.repo)
+    CB = ("type_specifier", "declaration_specifiers", "specifier_qualifier_list")
+    G = loader.load("rzilcompiler.Transformer.ValueType").globals["VTGroup"]
+
+    def fold(it, t, node):
+        if not isinstance(node, Tree):
+            return node
+        kids = [fold(it, t, k) for k in node.children]
+        if node.data in CB:
+            return it.call(tkit.method(it, t, node.data), [kids], {})
+        return Tree(node.data, kids)
+    for first, second in (("const uint32_t", "uint32_t"), ("const int64_t", "int64_t"), ("uint32_t", "const uint32_t")):
+        e1, e2 = trees[("declaration", first)], trees[("declaration", second)]
+        if e1[0] != "ok" or e2[0] != "ok":
+            check.undecided.append((f"type history {first} / {second}", "spelling not parsed by the grammar (needs contract)"))
+            continue
+        tops = [[t for t in e[1].iter_subtrees_topdown() if t.data in CB][0] for e in (e1, e2)]
+        inst = f"`{first} a;` then `{second} b;`"
+        check.instances_declared += 1
+
+        def run(it, st, tops=tops):
+            a = fold(it, st["t"], tops[0])
+            ga = a.fields["group"]
+            b = fold(it, st["t"], tops[1])
+            return a, ga, b
+        ex = explore(loader, lambda it: {"t": tkit.mk_transformer(it)}, run)
+        check.absorb(ex, f"type history {inst}")
+        if ex.paths:
+            check.instances_generated += 1
+        for p in ex.paths:
+            if p.outcome != "return":
+                check.ob("declaration-type#history.total", inst, p.ctx.pc, False, detail=f"raises {p.value!r}")
+                continue
+            a, ga, b = p.value
+            want_a, want_b = first.startswith("const "), second.startswith("const ")
+            ok = bool(ga & G.CONST) == want_a and bool(a.fields["group"] & G.CONST) == want_a and bool(b.fields["group"] & G.CONST) == want_b
+            check.ob("declaration-type#history: const-ness of a declared type is independent of the declarations before and after it", inst, p.ctx.pc, ok,
+                     detail=f"first const: {bool(a.fields['group'] & G.CONST)} (at its declaration {bool(ga & G.CONST)}), second const: {bool(b.fields['group'] & G.CONST)}",
+                     replay=("c01.type_history", lambda mdl: {}) if replay_on else None)
+
+
+@replay.register("c01.type_history")
+def replay_type_history(a):
+    c = irkit.real_compiler()
+    out = []
+    for stmt in ("{ const uint64_t k = 1; RddV = k; }", "{ uint64_t s; s = RssV; RddV = s; }", "{ const int32_t k = 1; RdV = k; }", "{ int32_t s; s = RsV; RdV = s; }"):
+        try:
+            c.compile_c_stmt(stmt)
+            out.append("ok")
+        except Exception as e:          # noqa: BLE001
+            out.append(f"{type(e).__name__}: {str(e).splitlines()[-1][:80]}")
+    return out != ["ok"] * 4, f"a const declaration followed by a plain one of the same type: {out}"
+
+
 @replay.register("c01.type")
 def replay_type(a):
     c = irkit.real_compiler()
@@ -495,6 +553,8 @@ def coverage_lemma(loader, check):
 # ------------------------------------------------------------------------------------------ dispatch
 def gen_task(loader, check, what, replay_on=True):
     {"division": gen_division, "types": gen_types, "misc": gen_misc, "transform_insn": gen_transform_insn}[what](loader, check, replay_on)
+    if what == "types":
+        gen_type_history(loader, check, replay_on)
 
 
 def constituent(loader, check, module):
